@@ -16,6 +16,7 @@ def _bd(nr, nv, nf, tiers):
       bounds={'quick': 'compressed system of exactly nred=%d equations, nvar=%d right-hand sides, nfeq=%d drift equations; var0, rhs, wgt, the two dual vectors, the means and '
                        'the two coefficients a, b arbitrary reals; status 0/1' % (nr, nv, nf)},
       timeout_ms={'quick': 120000, 'thorough': 600000}, validate={'quick': 20, 'thorough': 40},
+      fpspecial='violation',   # a reachable sqrt of a negative variance IS the violation (NaN standard deviation)
       what='C02.b KrigingSystem::_estimateStdv: for every var0 and every rhs/wgt the stored standard deviation is >= 0 (negative variance clipped to 0), TEST for a failed system; '
            'C02.d KrigingSystem::_estimateEstim: est(a.z1+b.z2)-m == a.(est(z1)-m)+b.(est(z2)-m) with the same right-hand side (m = known mean, 0 with drift equations); '
            'real Eigen products (AMatrixDense::prodMatMatInPlace)',
